@@ -232,6 +232,21 @@ impl MetricValue for LyingProbe {
     type Unit = u::Second;
 }
 
+/// promises Bytes; writes Bytes, or - when `lie` - Kilobytes
+struct MaybeLying {
+    lie: bool,
+    v: u64,
+}
+impl Value for MaybeLying {
+    fn write(&self, writer: impl ValueWriter) {
+        let unit = if self.lie { Unit::Byte(metrique_writer::unit::PositiveScale::Kilo) } else { Unit::Byte(metrique_writer::unit::PositiveScale::One) };
+        writer.metric([Observation::Unsigned(self.v)], unit, [], MetricFlags::empty())
+    }
+}
+impl MetricValue for MaybeLying {
+    type Unit = u::Byte;
+}
+
 struct LyingNone;
 impl Value for LyingNone {
     fn write(&self, writer: impl ValueWriter) {
@@ -246,7 +261,19 @@ fn misc(rng: &mut Rng, rep: &Report) {
     // durations are fractional milliseconds unless a time unit is declared
     for _ in 0..2000 {
         rep.eval();
-        let d = Duration::new(rng.below(1 << 32), rng.below(1_000_000_000) as u32);
+        // every magnitude a Duration can hold, whole and fractional milliseconds alike
+        let secs = match rng.below(5) {
+            0 | 1 => rng.below(1 << 32),
+            2 => rng.next_u64() >> rng.below(64),
+            3 => u64::MAX - rng.below(1000),
+            _ => 18_446_744_073_709_552 + rng.below(1 << 40), // just above 2^64 milliseconds
+        };
+        let nanos = match rng.below(3) {
+            0 => 0,
+            1 => rng.below(1000) as u32 * 1_000_000,
+            _ => rng.below(1_000_000_000) as u32,
+        };
+        let d = Duration::new(secs, nanos);
         let plain = record_value(&d);
         let secs = record_value(&u::AsSeconds::from(d));
         let micros = record_value(&u::AsMicroseconds::from(d));
@@ -333,6 +360,34 @@ fn misc(rng: &mut Rng, rep: &Report) {
         if !matches!(v, Val::Error(_)) {
             rep.violation("wrongly-scaled-instead-of-error", json!({"case": what, "wrote": format!("{v:?}")}));
             return;
+        }
+    }
+    // the same through distributions and means: a lie at ANY position is an error, never a number
+    for n in 1..=5usize {
+        for mask in 0..(1u32 << n) {
+            rep.eval();
+            let mk = || (0..n).map(|i| MaybeLying { lie: mask >> i & 1 == 1, v: 100 + i as u64 }).collect::<Distribution<MaybeLying>>();
+            let plain = record_value(&mk());
+            let converted = record_value(&WithUnit::<Distribution<MaybeLying>, u::Kilobyte>::from(mk()));
+            let mean = mk().try_to_mean();
+            let ctx = json!({"elements": n, "lying_positions_bitmask": mask});
+            if mask == 0 {
+                let ok = matches!(&plain, Val::Metric { obs, unit, .. } if unit.name() == "Bytes" && obs.len() == n)
+                    && matches!(&converted, Val::Metric { obs, unit, .. } if unit.name() == "Kilobytes" && obs.len() == n)
+                    && mean.is_ok();
+                if !ok {
+                    rep.violation("distribution-changed-unit-or-quantity", json!({"ctx": ctx, "plain": format!("{plain:?}"), "converted": format!("{converted:?}"), "mean_ok": mean.is_ok()}));
+                    return;
+                }
+            } else if !matches!(plain, Val::Error(_)) || !matches!(converted, Val::Error(_)) || mean.is_ok() {
+                rep.violation(
+                    "wrongly-scaled-instead-of-error",
+                    json!({"case": "Distribution of values promising Bytes in which some element writes Kilobytes", "ctx": ctx,
+                           "plain": format!("{plain:?}"), "with_unit_kilobytes": format!("{converted:?}"), "try_to_mean_is_ok": mean.is_ok()}),
+                );
+                return;
+            }
+            rep.count("distribution_lie_patterns", 1);
         }
     }
     rep.distinct(Fnv::new().str("misc").finish());
